@@ -190,7 +190,13 @@ func vc24Sign(t *rapid.T, o *object.Object, signer neofscrypto.Signer) {
 	}
 }
 
-func vc24Subject_(tt *testing.T, t *rapid.T, maxLen int, allowChild bool) *vc24Subject {
+// vc24Uniform draws an index in [0,n) without rapid's bias to small values.
+func vc24Uniform(t *rapid.T, label string, n int) int {
+	x := uint64(rapid.IntRange(0, 1<<20).Draw(t, label))
+	return int((x * 0x9e3779b97f4a7c15 >> 33) % uint64(n))
+}
+
+func vc24Subject_(tt *testing.T, t *rapid.T, maxLen int, allowChild bool, wantAuth, wantShape string) *vc24Subject {
 	s := &vc24Subject{}
 	s.owner = gensign.New(0, rapid.SampledFrom(gensign.Schemes).Draw(t, "ownerScheme"))
 	s.signer = s.owner
@@ -202,6 +208,9 @@ func vc24Subject_(tt *testing.T, t *rapid.T, maxLen int, allowChild bool) *vc24S
 	o := vc24Blank(s.owner.UserID())
 	o.SetAttributes(vc24Attrs(t)...)
 	s.auth = rapid.SampledFrom([]string{"owner", "owner", "v1", "v2"}).Draw(t, "auth")
+	if wantAuth != "" {
+		s.auth = wantAuth
+	}
 	switch s.auth {
 	case "v1":
 		s.signer = gensign.New(1, rapid.SampledFrom(gensign.Schemes).Draw(t, "sessScheme"))
@@ -211,7 +220,7 @@ func vc24Subject_(tt *testing.T, t *rapid.T, maxLen int, allowChild bool) *vc24S
 		o.SetSessionTokenV2(vc24TokenV2(tt, t, s.owner, s.signer.UserID()))
 	}
 	s.shape = "plain"
-	if allowChild && rapid.IntRange(0, 3).Draw(t, "child") == 0 {
+	if allowChild && wantShape != "plain" && (wantShape == "child" || rapid.IntRange(0, 3).Draw(t, "child") == 0) {
 		// last child of a V2 split chain carrying the complete parent header
 		s.shape = "child"
 		par := vc24Blank(s.owner.UserID())
@@ -695,13 +704,17 @@ func TestVerifC24Signed(t *testing.T) {
 	muts := vc24Mutations()
 	rapid.Check(t, func(rt *rapid.T) {
 		defer cl.c.resetAllStoredObjects()
-		s := vc24Subject_(t, rt, maxObjectSize, true)
+		var m *vc24Mutation
+		wantAuth, wantShape := "", ""
+		if rapid.IntRange(0, 4).Draw(rt, "mutate") != 0 {
+			m = &muts[vc24Uniform(rt, "mutation", len(muts))]
+			wantAuth, wantShape = m.auth, m.shape
+		}
+		s := vc24Subject_(t, rt, maxObjectSize, true, wantAuth, wantShape)
 		sent := s.obj
 		stream := s.payload
 		mut := "none"
-		if rapid.IntRange(0, 4).Draw(rt, "mutate") != 0 {
-			app := vc24Applicable(muts, s)
-			m := app[rapid.IntRange(0, len(app)-1).Draw(rt, "mutation")]
+		if m != nil {
 			mut = m.name
 			var cp object.Object
 			s.obj.CopyTo(&cp)
